@@ -1,10 +1,13 @@
 #!/bin/sh
-# runs every claimed check (tier $1, default quick) and prints one summary line per property
+# runs every claimed check (tier $1, default quick; optional list of property ids after it) and prints one summary line per property
 tier=${1:-quick}
+[ $# -gt 0 ] && shift
 cd /verif
-for p in $(python3 -c "import json;print(' '.join(c['property_id'] for c in json.load(open('MANIFEST.json'))['checks']))"); do
+props="$*"
+[ -z "$props" ] && props=$(python3 -c "import json;print(' '.join(c['property_id'] for c in json.load(open('MANIFEST.json'))['checks']))")
+for p in $props; do
   s=$(date +%s)
-  ./check $p --tier $tier > /tmp/run_$p.out 2>&1; rc=$?
+  ./check $p --tier $tier > /tmp/run_${tier}_$p.out 2>&1; rc=$?
   e=$(date +%s)
-  echo "$p rc=$rc $((e-s))s $(tail -1 /tmp/run_$p.out | cut -c1-200)"
+  echo "$p rc=$rc $((e-s))s $(tail -1 /tmp/run_${tier}_$p.out | cut -c1-200)"
 done
